@@ -579,7 +579,11 @@ theorem hidden_stays_hidden (env : Env) (ty : Ty) (x : Dyn) (c : Val) (err : Opt
   | val v =>
     cases v with
     | cell r f t => exact absurd rfl (hx r f t)
-    | row ms => simp [importCell] at h; obtain ⟨rfl, _⟩ := h; rfl
+    | row ms =>
+      simp only [importCell] at h
+      split at h
+      · cases h; rfl
+      · exact key h
   | _ => exact key (by simpa only [importCell] using h)
 
 /-- The hidden column as a fixed point, cell level: the raw value it "exports" is taken back
